@@ -16,9 +16,10 @@ SCHEMA = f'''<xs:schema {XS}>
    <xs:element name="item" type="B" maxOccurs="unbounded"/>
    <xs:element ref="gitem" minOccurs="0" maxOccurs="unbounded"/>
    <xs:element name="fix" type="xs:decimal" fixed="1.0" minOccurs="0"/>
+   <xs:element name="u" minOccurs="0" maxOccurs="unbounded"><xs:simpleType><xs:union memberTypes="xs:int xs:string"/></xs:simpleType></xs:element>
    <xs:any namespace="##other" processContents="lax" minOccurs="0"/>
   </xs:sequence><xs:attribute name="id" type="xs:ID"/><xs:attribute name="ref" type="xs:IDREF"/></xs:complexType>
-  <xs:key name="K"><xs:selector xpath="item|item/sub|gitem|gitem/sub"/><xs:field xpath="@k"/></xs:key>
+  <xs:unique name="UU"><xs:selector xpath="u"/><xs:field xpath="."/></xs:unique><xs:key name="K"><xs:selector xpath="item|item/sub|gitem|gitem/sub"/><xs:field xpath="@k"/></xs:key>
  </xs:element>
  <xs:element name="gitem" type="B"/></xs:schema>'''
 DOCS = [
@@ -36,6 +37,8 @@ DOCS = [
     f'<r {XSI}><item k="1"><a>x</a></item><gitem k="5" xsi:type="E1"><a>x</a><sub k="6"/></gitem></r>',
     f'<r {XSI}><item k="1"><a>x</a></item><gitem k="5"><a>x</a></gitem><gitem k="5"><a>y</a></gitem></r>',
     '<gitem k="1"><a>x</a></gitem>', '<gitem k="1"><a>x</a><sub k="2"/></gitem>',
+    # a union with lexically overlapping members: which member decodes a value must not depend on what was decoded before
+    f'<r {XSI}><item k="1"><a>x</a></item><u>alpha</u><u>n/a</u></r>', f'<r {XSI}><item k="1"><a>x</a></item><u>1</u><u>01</u></r>', f'<r {XSI}><item k="1"><a>x</a></item><u>7</u></r>',
 ]
 OPS = ['is_valid', 'iter_errors', 'decode_lax', 'decode_strict', 'validate', 'lazy', 'to_objects', 'stop', 'encode']
 
